@@ -85,6 +85,7 @@ Print Assumptions C05_preprocess_wf.
 Theorem C05_accept_sound_raw_refuted :
   let s := [mkParam 1 POK false] in
   call_ok s [RStarUnknown; RPos; RPos] = true /\
+  positional_after_star [RStarUnknown; RPos; RPos] = true /\
   forall n, py_bind s (n + 2) [] = false.
 Proof. exact accept_sound_raw_refuted_witness. Qed.
 Print Assumptions C05_accept_sound_raw_refuted.
